@@ -29,6 +29,14 @@ OPS_FOR_WHEN = ["open", "write", "rename", "stat", "mkdir", "read", "unlink",
                 "access", "ftruncate"]
 
 
+class _NotJson(ValueError):
+    pass
+
+
+def _not_json(name):
+    raise _NotJson(name)
+
+
 def i1_invariant(sim, vp, op, path):
     i = sim.fs.ents.get(SETTINGS_PATH)
     key = None if i is None else (i.ino, i.version)
@@ -40,10 +48,13 @@ def i1_invariant(sim, vp, op, path):
         return None
     data = bytes(i.data)
     try:
-        obj = json.loads(data)
+        obj = json.loads(data, parse_constant=_not_json)
         if isinstance(obj, dict):
             return None
         bad = "not-an-object"
+    except _NotJson:
+        # NaN / Infinity: Python's extension, no JSON document
+        bad = "non-finite-number"
     except ValueError:
         bad = "empty" if len(data) == 0 else "partial"
     if any(v is not vp and v.state != vproc.DONE and not v.dead
@@ -66,8 +77,26 @@ def i1_invariant(sim, vp, op, path):
 LOCALES = ["ascii", "latin-1", "euc_jp", "cp1252"]
 
 
+HUGE_FILE = f"{WORK}/huge_number.json"
+
+
 def gen_command(rng, dflt, keys, merge_files):
     cmd = _gen_command(rng, dflt, keys, merge_files)
+    if cmd["cmd"] == "config" and cmd["argv"][:1] == ["set"] and (
+            rng.random() < 0.04):
+        # what float() accepts but JSON cannot express; a merge file may say
+        # the same with the valid literal 1e999.  Refusing is fine (such a
+        # command is exempt from I3), writing it is not (I1)
+        if HUGE_FILE in merge_files and rng.random() < 0.5:
+            cmd["argv"] = ["set", "-m", HUGE_FILE]
+        else:
+            k = rng.choice([k for k in keys if isinstance(
+                dflt[k], (int, float)) and not isinstance(dflt[k], bool)])
+            cmd["argv"] = cmd["argv"] + [k, rng.choice(
+                ["nan", "inf", "NaN", "Infinity", "1e999"])]
+        cmd["nonfinite"] = True
+    if HUGE_FILE in cmd.get("argv", ()):
+        cmd["nonfinite"] = True
     if rng.random() < 0.15:
         # cron, ssh, a container: the same home under another locale
         cmd["locale"] = rng.choice(LOCALES)
@@ -231,6 +260,9 @@ class C19(Check):
             p = f"{WORK}/other_{k}.json"
             init["files"][p] = sg.dumps(sg.gen_other_config(rng, dflt))
             merge_files.append(p)
+        if rng.random() < 0.3:
+            init["files"][HUGE_FILE] = '{"tf_cache_max_time": 1e999}'
+            merge_files.append(HUGE_FILE)
         config = rng.choice(["crash"] * 6 + ["faultfree"] * 2 +
                             ["iofault"] * 2)
         chunk = rng.choice([None] * 8 + [4096, 1024, 512, 100, 64, 7])
@@ -346,6 +378,10 @@ class C19(Check):
             for vp in vps:
                 for ci, res in enumerate(vp.results):
                     if res["faulted"]:
+                        continue
+                    if not res["ok"] and ci < len(vp.program) and (
+                            vp.program[ci].get("nonfinite")):
+                        sim.probe("non_finite_value_refused")
                         continue
                     if not res["ok"]:
                         violation = {
